@@ -350,6 +350,12 @@ def poll (d : Dec ε σ) (st : St ε σ) (timeout : Option Nat) (env : PollEnv) 
   | .err e => ⟨r.acc.st, .err e, r.acc.log, r.acc.pushed, r.rest⟩
   | .blocked => ⟨r.acc.st, .blocked, r.acc.log, r.acc.pushed, r.rest⟩
 
+/-- `frames_drop`: `clear_but_last`, and — when the size comes from escape sequences — ask for the size again:
+the query that answers a SIGWINCH travels through the same queue and may have been in a dropped frame -/
+def framesDrop (st : St ε σ) : St ε σ :=
+  let q := st.wq.clearButLast
+  { st with wq := if st.sizeEsc then q.write getTermSize else q }
+
 /-! ## `dispose` / `Drop` -/
 
 /-- the commands of the epilogue, in order: default face, show cursor, mouse motions / SGR / report off,
@@ -424,7 +430,7 @@ structure DisposeOut (ε σ τ : Type) where
 def dispose {τ : Type} (d : Dec ε σ) (epi : List (List Nat)) (saved : τ) (st : St ε σ) (env : DEnv) :
     DisposeOut ε σ τ :=
   -- self.frames_drop(); signal handle closed, pending signals dropped
-  let st1 := { st with wq := st.wq.clearButLast }
+  let st1 := framesDrop st
   -- self.execute_many([...]).unwrap_or(())
   let st2 := { st1 with wq := execMany st1.wq epi env.exec }
   -- loop { match self.poll(Some(1 s)) … }
@@ -692,7 +698,7 @@ def stepT (s : Sess) : TOp → Sess × String
     | (none, log) => (s, s!"openfail/{log.length}")
   | .write b => let st := { s.st with wq := s.st.wq.write b }; ({ s with st := st }, showQ st)
   | .flush => let st := { s.st with wq := s.st.wq.flush }; ({ s with st := st }, showQ st)
-  | .drop => let st := { s.st with wq := s.st.wq.clearButLast }; ({ s with st := st }, showQ st)
+  | .drop => let st := framesDrop s.st; ({ s with st := st }, showQ st)
   | .sizeEsc on => let st := { s.st with sizeEsc := on }; ({ s with st := st }, showQ st)
   | .poll to env =>
     let r := poll simpleDec s.st to env
